@@ -71,6 +71,8 @@ pub mod rt {
     pub static mut WATCH_ADDR: [usize; 4] = [0; 4];
     pub static mut WATCH_STAMP: [usize; 4] = [0; 4];
     pub static mut WATCH_HITS: [usize; 4] = [0; 4];
+    /// event clock: advanced at every watched write / lock and at every harness-level event (notify)
+    pub static mut CLOCK: usize = 0;
 
     #[inline(always)]
     pub fn note(addr: usize) {
@@ -79,15 +81,18 @@ pub mod rt {
                 return;
             }
             if WATCH_ADDR[0] != 0 && WATCH_ADDR[0] == addr {
-                WATCH_STAMP[0] = ACCESSES;
+                CLOCK += 1;
+                WATCH_STAMP[0] = CLOCK;
                 WATCH_HITS[0] += 1;
             }
             if WATCH_ADDR[1] != 0 && WATCH_ADDR[1] == addr {
-                WATCH_STAMP[1] = ACCESSES;
+                CLOCK += 1;
+                WATCH_STAMP[1] = CLOCK;
                 WATCH_HITS[1] += 1;
             }
             if WATCH_ADDR[2] != 0 && WATCH_ADDR[2] == addr {
-                WATCH_STAMP[2] = ACCESSES;
+                CLOCK += 1;
+                WATCH_STAMP[2] = CLOCK;
                 WATCH_HITS[2] += 1;
             }
         }
